@@ -340,8 +340,16 @@ class Tally:
         self.outcomes["ok" if verdict is None else verdict["symptom"]] += 1
 
     def export(self) -> dict:
+        """Violations leave a task already grouped by signature (first witness + count)."""
+        grouped: dict = {}
+        for v in self.violations:
+            hit = grouped.get(v["sig"])
+            if hit is None:
+                grouped[v["sig"]] = dict(v, count=v.get("count", 1))
+            else:
+                hit["count"] += v.get("count", 1)
         return {"c": dict(self.c), "outcomes": dict(self.outcomes),
-                "violations": self.violations, "samples": self.samples}
+                "violations": list(grouped.values()), "samples": self.samples}
 
 
 # ================================================================== engine SEQ
@@ -379,7 +387,7 @@ def seq_note(tally, k, res, state, history, op, traced):
     if state and not traced:
         tally.c["nontrivial"] += 1
     if verdict is None:
-        return
+        return "ok"
     exprs, crashed = _history_info(history)
     tags = W.tags(
         k, verdict["symptom"], state, exprs,
@@ -393,6 +401,7 @@ def seq_note(tally, k, res, state, history, op, traced):
         f"last operation of history {_fmt_history(full)}",
         {"directory_before_failing_call": W.describe(state)},
     ))
+    return verdict["symptom"]
 
 
 def seq_ops_seed(tier):
@@ -430,6 +439,7 @@ def seq_expand(task):
                 succ[key] = (op, (changed, removed))
 
     n = len(W.exprs)
+    plain = []
     for k in range(n):
         d = W.fresh(state)
         res = W.call(k, d)
@@ -437,7 +447,7 @@ def seq_expand(task):
         W.remove(d)
         tally.c["executions"] += 1
         op = ["call", W.names[k]]
-        seq_note(tally, k, res, state, history, op, False)
+        plain.append((seq_note(tally, k, res, state, history, op, False), W.canon(after)))
         if closing:
             tally.c["seq_transitions"] += 1
         else:
@@ -456,12 +466,20 @@ def seq_expand(task):
         d = W.fresh(state)
         ex, snaps = crash_points(lambda k=k, d=d: W.fn(W.exprs[k], d), W.files,
                                  lambda d=d: W.snapshot(d))
+        final = W.snapshot(d)
         W.remove(d)
         tally.c["executions"] += 1
         tally.c["seq_crash_points"] += len(snaps)
         res = ex.results[0]
         res = res if res[0] == "ok" or isinstance(res[1], Exception) else _reraise(res[1])
-        seq_note(tally, k, res, state, history, ["call", W.names[k]], True)
+        traced = seq_note(tally, k, res, state, history, ["call", W.names[k]], True)
+        # the same call with and without the trace hook must be indistinguishable
+        if (traced, W.canon(final)) != plain[k]:
+            msg = (
+                f"tracing changes the behaviour of call({W.names[k]}) after"
+                f" {_fmt_history(history)}: {plain[k]} untraced, {(traced, W.canon(final))} traced"
+            )
+            raise HarnessError(msg)
         for p, snap in enumerate(snaps):
             add(["crash", W.names[k], p], snap)
     if len(tally.samples) == 0 and len(history) == 2:
@@ -796,9 +814,10 @@ def crash_task(task):
             state[name] = content[:n]
             shown = (name[:10] + "..." + name[-4:]) if name in W.entry_names else "<other file>"
             origin = f"a torn write: first {n} of {len(content)} bytes of {shown} ({W.names[k]}-writer, {kind} directory)"
-            for seq in seqs:
-                run_followups(tally, state, seq, k, origin,
-                              dict(base_case, prefix=[fi, n]), False)
+            # (one sequence per torn write: same, colliding, same again; the sequence that
+            # starts with the colliding expression is run at the crash points only)
+            run_followups(tally, state, seqs[0], k, origin,
+                          dict(base_case, prefix=[fi, n]), False)
     if part == 0:
         tally.samples.append({
             "engine": "CRASH", "hash_seed": W.mode, "writer": W.names[k], "directory": kind,
@@ -806,7 +825,8 @@ def crash_task(task):
             "files_written": [{"file": n if n in W.entry_names else "<other>", "bytes": len(c)}
                               for n, c in files],
             "byte_prefixes_enumerated": sum(len(c) + 1 for _, c in files),
-            "followups": [[W.names[x] for x in s] for s in seqs],
+            "followups_per_prefix": [W.names[x] for x in seqs[0]],
+            "followups_per_crash_point": [[W.names[x] for x in s] for s in seqs],
         })
     out = tally.export()
     if part == "points":
@@ -1035,11 +1055,12 @@ def main_job(job: dict) -> dict:
         by_sig: dict = {}
         tag_exec: collections.Counter = collections.Counter()
         for v in total.violations:
+            n = v.get("count", 1)
             for t in v["tags"] or ["<untagged>"]:
-                tag_exec[t] += 1
+                tag_exec[t] += n
             if v["sig"] not in by_sig:
                 by_sig[v["sig"]] = dict(v, count=0)
-            by_sig[v["sig"]]["count"] += 1
+            by_sig[v["sig"]]["count"] += n
         viols = []
         for v in by_sig.values():
             v = dict(v)
